@@ -217,6 +217,15 @@ func (s *InvokeRenderer) RenderRuntimeEvent(writer http.ResponseWriter, request 
 		if err := s.bufferInvokeRequest(); err != nil {
 			return err
 		}
+		// The rendering service stays locked while the event is written. A client that
+		// asked for the event and then stops reading must not keep it locked beyond the
+		// life of the invocation: the next invocation, and any reset, would wait forever.
+		if t, err := strconv.ParseInt(invoke.DeadlineNs, 10, 64); err == nil {
+			rc := http.NewResponseController(writer)
+			if rc.SetWriteDeadline(time.Unix(0, metering.MonoToEpoch(t))) == nil {
+				defer rc.SetWriteDeadline(time.Time{})
+			}
+		}
 		_, err := writer.Write(s.requestBuffer.Bytes())
 		return err
 	}
